@@ -50,13 +50,27 @@ def main():
         rep.mc_violation("C18_laws", r)
 
     rng = random.Random(core.seed() * 7919 + 18)
-    n = 500 if quick else 10000
+    n = 800 if quick else 12000
     cases = []
     for i in range(n):
         S = rng.choice([1, 1, 2])
         p, q = operands(rng, S)
         a = rng.choice([0, 0, 1, 2]); b = a + rng.choice([0, 1, 2, 3]); c = rng.choice([0, 1, 2]); d = c + rng.choice([0, 1, 2])
         nm, l, r_, kind = rng.choice(laws(p, q, a, b, c, d))
+        ctx_future = False
+        if rng.random() < 0.35 and kind != "unbfuture":
+            # both sides inside the same context: a sibling with a longer horizon, an enclosing Boolean / temporal operator
+            at = pred(rng.choice(["ge", "le"]), var(rng.choice(["x", "y"])), const(rng.choice([0, 1]) * S))
+            kctx = rng.choice(["and_ev", "or_alw", "implies_ev", "not", "and_once", "ev", "next"] if kind != "past" else
+                              ["and_ev", "or_alw", "implies_ev", "not", "and_once", "once", "hist", "histT", "since"])
+            k_ = rng.choice([1, 2, 3])
+            C = {"and_ev": lambda f: bi("and", f, un("evT", at, 0, k_)), "or_alw": lambda f: bi("or", un("alwT", at, 1, k_ + 1), f),
+                 "implies_ev": lambda f: bi("implies", f, un("evT", at, k_, k_ + 1)), "not": lambda f: un("not", f),
+                 "and_once": lambda f: bi("and", un("onceT", at, 0, k_), f), "ev": lambda f: un("evT", f, 0, k_), "next": lambda f: un("next", f),
+                 "once": lambda f: un("once", f), "hist": lambda f: un("hist", f), "histT": lambda f: un("histT", f, 0, k_),
+                 "since": lambda f: bi("since", at, f)}[kctx]
+            l, r_ = C(l), C(r_)
+            ctx_future = kctx in ("and_ev", "or_alw", "implies_ev", "ev", "next")
         vs = sorted(set(vars_of(l) + vars_of(r_))) or ["x"]
         N = rng.choice([1, 2, 3, 4, 6, 8, 12])
         online = kind != "unbfuture" and rng.random() < 0.5
@@ -65,7 +79,7 @@ def main():
             assert h == horizon(r_)
             N += h
             w = gen_trace(rng, vs, N, S)
-            past = [ev_pastify] if kind == "future" or rng.random() < 0.2 else []
+            past = [ev_pastify] if kind == "future" or ctx_future or rng.random() < 0.2 else []
             evs = []
             for o in (1, 2):
                 evs += [ev_parse(o)] + [f(o) for f in past]
@@ -83,11 +97,19 @@ def main():
     dcases = []
     for i in range(n // 2):
         S = rng.choice([1, 2])
-        g = Gen(rng, vars_=("x", "y"), S=S, ops=["not", "and", "or", "once", "onceT", "histT", "since"], ivs=[(0, 1), (1, 2), (0, 0)], bool_atoms=True)
-        p_, q_ = g.formula(rng.choice([0, 0, 1, 1])), g.formula(rng.choice([0, 0, 1]))
+        g = Gen(rng, vars_=("x", "y"), S=S, ops=["not", "and", "or", "once", "hist", "onceT", "histT", "since"], ivs=[(0, 1), (1, 2), (0, 0)], bool_atoms=True)
+        p_, q_ = g.formula(rng.choice([0, 0, 1, 1, 2])), g.formula(rng.choice([0, 0, 1]))
         a = rng.choice([0, 0, 1, 2]); b = a + rng.choice([0, 1, 2, 3]); c = rng.choice([0, 1, 2]); d = c + rng.choice([0, 1, 2])
         cand = [l_ for l_ in laws(p_, q_, a, b, c, d) if l_[0] not in ("since_exp", "until_exp")]
         nm, l, r_, kind = rng.choice(cand)
+        if rng.random() < 0.3:      # the same context around both sides (the visitor's scratch state must not leak between nested operators)
+            at = pred(rng.choice(["ge", "le"]), var(rng.choice(["x", "y"])), const(rng.choice([0, 1]) * S))
+            C = rng.choice([lambda f: un("once", f), lambda f: un("hist", f), lambda f: bi("and", un("once", at), f), lambda f: un("not", f),
+                            lambda f: bi("since", at, f), lambda f: un("histT", f, 0, 1)] +
+                           ([] if kind == "past" else [lambda f: un("alw", f), lambda f: un("ev", f), lambda f: bi("until", at, f)]))
+            l, r_ = C(l), C(r_)
+            if kind == "past" and (ops_of(l) & FUT):
+                kind = "future"
         vs = sorted(set(vars_of(l) + vars_of(r_)))
         if not vs:
             continue
